@@ -2,5 +2,5 @@ package main
 
 // one blank import per area package; each registers its drivers in init().
 import (
-	_ "verif/harness/internal/graphs"
+	_ "gonum.org/v1/gonum/verifharness/internal/graphs"
 )
